@@ -283,9 +283,11 @@ def r5_find(ctx, prog):
     for sname, sval in st.items():
         if sname in ('CKS_RO_USER_FUNCTIONS', 'CKS_RW_USER_FUNCTIONS'):
             continue
-        cenv = {re.compile(r'getState\(\w+\)'): sval, re.compile(r'getBooleanValue\(.*,CKA_PRIVATE,\w+\)'): 1}
+        # the filter does not depend on the template: the empty template (which matches every object) keeps the matching loop out of the enumeration
+        cenv = {re.compile(r'getState\(\w+\)'): sval, re.compile(r'getBooleanValue\(.*,CKA_PRIVATE,\w+\)'): 1, param_name(f, 2): 0}
         o = Outcomes(f, prog, cenv=cenv, record_calls={'addTokenObject', 'addSessionObject', 'insert'})
         o.CAP = 48
+        o.LOOP_ROUNDS = 1
         o.go()
         r.paths += len(o.outcomes)
         bad = [oc for oc in o.outcomes if oc['events']]
@@ -318,6 +320,7 @@ def bbool_reads(fn):
 class BoolReads(Outcomes):
     """Records the concrete value every policy flag receives from a template entry."""
     targets = ()
+    NO_RETURN_SPLIT = True      # `flag = (byte == CK_TRUE) ? CK_TRUE : CK_FALSE` is evaluated as one expression: the hook has to see the template read
 
     def on_assign(self, lhs, rhs, st):
         if lhs.get('k') == 'Var' and lhs['name'] in self.targets and rhs is not None and any(x.get('k') == 'Member' and x.get('field') == 'pValue' for x in walk(rhs)):
